@@ -74,6 +74,39 @@ theorem C05_no_sender_blocks (H : Bytes → Bytes) (S : Scheme) (sent : Bid) (rs
     simpa using this
   omega
 
+/-- **Offered to every provider connected at call time, identically**: the goroutines' targets are
+exactly the providers the topology listed — each once, in that multiplicity — and every one of
+them is handed the same signed bid. -/
+theorem C05_offered_to_every_provider {P : Type} (providers : List P) (sent : Bid) :
+    (fanOut providers sent).map (·.1) = providers ∧ ∀ x ∈ fanOut providers sent, x.2 = sent := by
+  constructor
+  · simp [fanOut, List.map_map, Function.comp_def]
+  · intro x hx
+    simp only [fanOut, List.mem_map] at hx
+    obtain ⟨p, _, rfl⟩ := hx
+    rfl
+
+/-- **The result stream is complete when it ends**: once every per-provider goroutine has returned
+(the arrival order is a permutation of all provider indices) the deliveries are, as a multiset,
+exactly the valid replies of all providers — nothing is lost to the arrival order. -/
+theorem C05_stream_complete (H : Bytes → Bytes) (S : Scheme) (sent : Bid) (rs : List Reply)
+    (order : List Nat) (hp : order.Perm (List.range rs.length)) :
+    (deliveredInOrder H S sent rs order).Perm (rs.filterMap (outcome H S sent)) := by
+  refine (C05_order_independent H S sent rs order (List.range rs.length) hp).trans ?_
+  have key : ∀ n, (List.range n).filterMap (fun i => (rs[i]?).bind (outcome H S sent)) =
+      (rs.take n).filterMap (outcome H S sent) := by
+    intro n
+    induction n with
+    | zero => simp
+    | succ n ih =>
+      rw [List.range_succ, List.filterMap_append, ih, List.take_add_one, List.filterMap_append]
+      congr 1
+      cases h : rs[n]? <;> simp [List.filterMap_cons, h]
+  have : deliveredInOrder H S sent rs (List.range rs.length) = rs.filterMap (outcome H S sent) := by
+    unfold deliveredInOrder
+    rw [key rs.length, List.take_length]
+  rw [this]
+
 /-- a commitment for a *different valid* bid (its own or a replayed one) is not surfaced -/
 theorem C05_other_bid_not_surfaced (H : Bytes → Bytes) (S : Scheme) (sent other : Bid) (c : Commitment)
     (hc : c.bid = some other) (hne : other ≠ sent) : outcome H S sent (.commitment c) = none := by
